@@ -56,23 +56,41 @@ pub struct Builder<'a, I: HInput<'a>, E: HErr<'a, I>> {
     _p: PhantomData<fn() -> (&'a (), E)>,
 }
 
+thread_local! {
+    /// When set, every typed combinator is `.clone()`d before it is boxed and the original is dropped: the parser
+    /// that runs is then made of structural clones (exercises the hand-written `Clone` impls; property C13).
+    pub static CLONE_TYPED: std::cell::Cell<bool> = std::cell::Cell::new(std::env::var("CHUM_CLONE_TYPED").map_or(false, |v| v == "1"));
+}
+
 /// Box a parser, pinning down input, output and extra types (helps inference of the primitives).
 fn bx<'a, I, E, T>(p: T) -> P<'a, I, E>
 where
     I: HInput<'a>,
     E: HErr<'a, I>,
-    T: Parser<'a, I, Val, Ex<E>> + 'a,
+    T: Parser<'a, I, Val, Ex<E>> + Clone + 'a,
 {
-    p.boxed()
+    if CLONE_TYPED.with(|c| c.get()) {
+        let q = p.clone();
+        drop(p);
+        q.boxed()
+    } else {
+        p.boxed()
+    }
 }
 
 fn bxu<'a, I, E, T>(p: T) -> PU<'a, I, E>
 where
     I: HInput<'a>,
     E: HErr<'a, I>,
-    T: Parser<'a, I, (), Ex<E>> + 'a,
+    T: Parser<'a, I, (), Ex<E>> + Clone + 'a,
 {
-    p.boxed()
+    if CLONE_TYPED.with(|c| c.get()) {
+        let q = p.clone();
+        drop(p);
+        q.boxed()
+    } else {
+        p.boxed()
+    }
 }
 
 fn span_val<'a, I: HInput<'a>>(cv: &I::Conv, s: I::Span) -> Val {
@@ -228,7 +246,7 @@ pub fn to_slice_with<'a, I, E, F>(p: P<'a, I, E>, range: F) -> P<'a, I, E>
 where
     I: HInput<'a> + SliceInput<'a>,
     E: HErr<'a, I>,
-    F: Fn(I::Slice) -> (Pos, Pos) + 'a,
+    F: Fn(I::Slice) -> (Pos, Pos) + Clone + 'a,
 {
     bx(p.to_slice().map(move |part: I::Slice| {
         let (s, e) = range(part);
@@ -702,7 +720,7 @@ impl<'a, I: HInput<'a>, E: HErr<'a, I>> Builder<'a, I, E> {
 
     fn iter2<T: Item, X>(&self, it: X, ads: &[Ad], fin: Fin<'a, I, E>) -> Res<P<'a, I, E>>
     where
-        X: IterParser<'a, I, T, Ex<E>> + 'a,
+        X: IterParser<'a, I, T, Ex<E>> + Clone + 'a,
     {
         match ads.split_first() {
             None => self.finish(it, fin),
@@ -713,7 +731,7 @@ impl<'a, I: HInput<'a>, E: HErr<'a, I>> Builder<'a, I, E> {
 
     fn iter1<T: Item, X>(&self, it: X, ads: &[Ad], fin: Fin<'a, I, E>) -> Res<P<'a, I, E>>
     where
-        X: IterParser<'a, I, T, Ex<E>> + 'a,
+        X: IterParser<'a, I, T, Ex<E>> + Clone + 'a,
     {
         match ads.split_first() {
             None => self.finish(it, fin),
@@ -724,7 +742,7 @@ impl<'a, I: HInput<'a>, E: HErr<'a, I>> Builder<'a, I, E> {
 
     fn iter0<T: Item, X>(&self, it: X, ads: &[Ad], fin: Fin<'a, I, E>) -> Res<P<'a, I, E>>
     where
-        X: IterParser<'a, I, T, Ex<E>> + 'a,
+        X: IterParser<'a, I, T, Ex<E>> + Clone + 'a,
     {
         match ads.split_first() {
             None => self.finish(it, fin),
@@ -738,7 +756,7 @@ impl<'a, I: HInput<'a>, E: HErr<'a, I>> Builder<'a, I, E> {
     /// (`iterable` routes un-mapped stacks to `iter2`), which keeps the number of instantiations down.
     fn both2<T: Item, X>(&self, it: X, ads: &[Ad], fin: Fin<'a, I, E>) -> Res<P<'a, I, E>>
     where
-        X: Parser<'a, I, T, Ex<E>> + IterParser<'a, I, T, Ex<E>> + 'a,
+        X: Parser<'a, I, T, Ex<E>> + IterParser<'a, I, T, Ex<E>> + Clone + 'a,
     {
         match ads.split_first() {
             Some((Ad::Map(f), rest)) => {
@@ -762,7 +780,7 @@ impl<'a, I: HInput<'a>, E: HErr<'a, I>> Builder<'a, I, E> {
 
     fn both1<T: Item, X>(&self, it: X, ads: &[Ad], fin: Fin<'a, I, E>) -> Res<P<'a, I, E>>
     where
-        X: Parser<'a, I, T, Ex<E>> + IterParser<'a, I, T, Ex<E>> + 'a,
+        X: Parser<'a, I, T, Ex<E>> + IterParser<'a, I, T, Ex<E>> + Clone + 'a,
     {
         match ads.split_first() {
             None => self.finish(it, fin),
@@ -788,7 +806,7 @@ impl<'a, I: HInput<'a>, E: HErr<'a, I>> Builder<'a, I, E> {
 
     fn finish<T: Item, X>(&self, it: X, fin: Fin<'a, I, E>) -> Res<P<'a, I, E>>
     where
-        X: IterParser<'a, I, T, Ex<E>> + 'a,
+        X: IterParser<'a, I, T, Ex<E>> + Clone + 'a,
     {
         Ok(match fin {
             Fin::Collect(CKind::Vec) => bx(it.collect::<Vec<T>>().map(items_val::<T, _>)),
